@@ -119,8 +119,25 @@ def dir_split(rng, dirs):
     return dirs, ""
 
 
+_EXT_KW = {"OBJECT": "type", "INTERFACE": "interface", "UNION": "union", "ENUM": "enum", "INPUT_OBJECT": "input"}
+
+
 def type_chunks(rng, s, t, split):
     """Definition text(s) for one type; with `split` part of it moves into `extend` definitions."""
+    if split and t.directives and t.kind in _EXT_KW and rng.random() < 0.3:
+        # the type-level directives arrive through an extension that carries NOTHING else (`extend interface I @d`),
+        # placed before the type's other extensions
+        saved, t.directives = t.directives, []
+        try:
+            out = _type_chunks(rng, s, t, split)
+        finally:
+            t.directives = saved
+        out.insert(1, "extend %s %s%s" % (_EXT_KW[t.kind], t.name, print_directives(saved)))
+        return out
+    return _type_chunks(rng, s, t, split)
+
+
+def _type_chunks(rng, s, t, split):
     head = smodel._desc(t.description)
     dirs = print_directives(t.directives)
     if t.kind == "SCALAR":
@@ -443,11 +460,48 @@ def compare_type(name, e, a, problems):
         problems.append("%s: inputFields must be null for kind %s" % (name, e["kind"]))
 
 
-def compare_schema(s, data):
-    """data: response['data']['__schema'].  Returns list of problems."""
+_BASELINE = {}
+
+
+async def engine_builtins():
+    """What THIS tree's engine reports for a one-field schema: its own built-in scalars and directives, whatever they are
+    (the statement leaves them to the engine).  {"types": {name: entry}, "directives": {name: entry}}, computed once per
+    process from a throw-away engine."""
+    if "b" not in _BASELINE:
+        from tartiflette import Engine
+        from vt import boot
+        name = boot.fresh_schema_name("builtins")
+        e = Engine("type Query {\n  vtOnly_: Int\n}\n", schema_name=name)
+        await e.cook()
+        r = await e.execute(INTROSPECTION_QUERY)
+        boot.forget_schema(name)
+        sch = (r.get("data") or {}).get("__schema") or {}
+        _BASELINE["b"] = {"types": {t["name"]: t for t in sch.get("types") or [] if t.get("name") != "Query"},
+                          "directives": {d["name"]: d for d in sch.get("directives") or []}}
+    return _BASELINE["b"]
+
+
+def _same_entry(a, b):
+    def norm(x):
+        if isinstance(x, dict):
+            return {k: norm(v) for k, v in sorted(x.items())}
+        if isinstance(x, list):
+            return sorted((norm(i) for i in x), key=lambda i: json.dumps(i, sort_keys=True, default=str))
+        return x
+    return json.dumps(norm(a), sort_keys=True, default=str) == json.dumps(norm(b), sort_keys=True, default=str)
+
+
+def compare_schema(s, data, builtins=None):
+    """data: response['data']['__schema'].  Returns list of problems.  `builtins` (engine_builtins()): with it, whatever is
+    not declared must be one of the engine's own built-ins, reported exactly as for the one-field schema; without it the
+    pinned table of today's built-ins is used."""
     problems = []
     exp = expected(s)
     sch = data
+    if builtins is not None:
+        for name in BUILTIN_DIRECTIVES:
+            if name not in s.directives:
+                exp["directives"].pop(name, None)
     for key, field in (("query", "queryType"), ("mutation", "mutationType"), ("subscription", "subscriptionType")):
         got = (sch.get(field) or {}).get("name")
         if got != exp[key]:
@@ -461,7 +515,14 @@ def compare_schema(s, data):
         if name not in at:
             problems.append("declared type %s missing from __schema.types" % name)
     for name in at:
-        if name not in exp["types"] and name not in BUILTIN_TYPES and name not in META_TYPES:
+        if name in exp["types"] or name in META_TYPES:
+            continue
+        if builtins is not None:
+            if name not in builtins["types"]:
+                problems.append("undeclared type %s in __schema.types" % name)
+            elif not _same_entry(at[name], builtins["types"][name]):
+                problems.append("built-in type %s reported differently than for a one-field schema" % name)
+        elif name not in BUILTIN_TYPES:
             problems.append("undeclared type %s in __schema.types" % name)
     for name in BUILTIN_SCALARS:
         if name not in at or at[name].get("kind") != "SCALAR":
@@ -470,6 +531,20 @@ def compare_schema(s, data):
         if name in at:
             compare_type(name, e, at[name], problems)
     ad = {d.get("name"): d for d in sch.get("directives") or []}
+    for name, arg in (("skip", "if"), ("include", "if"), ("deprecated", "reason")):
+        # the directives the specification itself requires of every schema
+        if name not in ad or arg not in [a.get("name") for a in ad[name].get("args") or []]:
+            problems.append("specified directive @%s(%s:) missing from __schema.directives" % (name, arg))
+    if builtins is not None:
+        # the engine's own directives: all present, each reported exactly as for the one-field schema; the rest is the model's
+        for name, entry in builtins["directives"].items():
+            if name in exp["directives"]:
+                continue
+            if name not in ad:
+                problems.append("built-in directive @%s missing" % name)
+            elif not _same_entry(ad[name], entry):
+                problems.append("built-in directive @%s reported differently than for a one-field schema" % name)
+            ad.pop(name, None)
     if set(ad) != set(exp["directives"]):
         problems.append("directives %s, expected %s" % (sorted(ad), sorted(exp["directives"])))
     else:
